@@ -284,6 +284,73 @@ def misc_numbers(out):
     out["Misc"] = d
 
 
+def fstr_template(n):
+    """an f-string as a template: literal pieces and {expr} holes"""
+    if isinstance(n, ast.Constant) and isinstance(n.value, str):
+        return n.value
+    if not isinstance(n, ast.JoinedStr):
+        raise Shape("expected an f-string: " + ast.dump(n)[:120])
+    out = ""
+    for v in n.values:
+        out += v.value if isinstance(v, ast.Constant) else "{" + ast.unparse(v.value) + "}"
+    return out
+
+
+@extractor
+def request_shapes(out):
+    """C09: how HomeKitConnection.request / get / put / post and _connect_once assemble a request"""
+    t = parse("controller/ip/connection.py")
+    d = {}
+    req = func(t, "request", "HomeKitConnection")
+    buf0 = None
+    appends = []
+    join = None
+    for n in sorted((x for x in ast.walk(req) if hasattr(x, "lineno")), key=lambda x: (x.lineno, x.col_offset)):
+        if isinstance(n, ast.Assign) and getattr(n.targets[0], "id", "") == "buffer" and isinstance(n.value, ast.List):
+            buf0 = [fstr_template(e) if isinstance(e, (ast.JoinedStr, ast.Constant)) else "{" + ast.unparse(e) + "}" for e in n.value.elts]
+        if isinstance(n, ast.Call) and isinstance(n.func, ast.Attribute) and n.func.attr == "append" and getattr(n.func.value, "id", "") == "buffer":
+            appends.append(fstr_template(n.args[0]))
+        if isinstance(n, ast.Call) and isinstance(n.func, ast.Attribute) and n.func.attr == "join" and isinstance(n.func.value, ast.Constant):
+            join = n.func.value.value
+    bodyif = [ast.unparse(n.test) for n in ast.walk(req) if isinstance(n, ast.If) and any(isinstance(b, ast.AugAssign) for b in n.body)]
+    sends = [ast.unparse(n) for n in ast.walk(req) if isinstance(n, ast.Call) and isinstance(n.func, ast.Attribute) and n.func.attr in ("send_bytes", "send_lines", "write", "writelines")]
+    if buf0 is None or join is None:
+        raise Shape("request_shapes: request()")
+    d["buffer0"], d["appends"], d["join"], d["bodyGuard"], d["sends"] = buf0, appends, join, bodyif, sends
+    helpers = {}
+    for name in ("get", "put", "post"):
+        f = func(t, name, "HomeKitConnection")
+        call = [n for n in ast.walk(f) if isinstance(n, ast.Call) and isinstance(n.func, ast.Attribute) and n.func.attr == "request"]
+        if len(call) != 1:
+            raise Shape("request_shapes: " + name)
+        kw = {k.arg: k.value for k in call[0].keywords}
+        hdrs = []
+        if "headers" in kw:
+            for e in kw["headers"].elts:
+                hdrs.append((e.elts[0].value, ast.unparse(e.elts[1])))
+        dflt = [ast.unparse(x) for x in f.args.defaults]
+        helpers[name] = {"method": kw["method"].value, "headers": hdrs, "defaults": dflt}
+    d["helpers"] = helpers
+    co = func(t, "_connect_once", "HomeKitConnection")
+    hosts = []
+    for n in ast.walk(co):
+        if isinstance(n, ast.If):
+            for br in (n.body, n.orelse):
+                for b in br:
+                    if isinstance(b, ast.Assign) and isinstance(b.targets[0], ast.Attribute) and b.targets[0].attr == "host_header":
+                        hosts.append((ast.unparse(n.test) if br is n.body else "else", fstr_template(b.value)))
+    d["hostHeader"] = hosts
+    h = parse("http/__init__.py")
+    cts = {}
+    for n in ast.walk(h):
+        if isinstance(n, ast.ClassDef) and n.name == "HttpContentTypes":
+            for b in n.body:
+                if isinstance(b, ast.Assign) and isinstance(b.value, ast.Constant):
+                    cts[b.targets[0].id] = b.value.value
+    d["contentTypes"] = cts
+    out["Request"] = d
+
+
 @extractor
 def ip_numbers(out):
     t = parse("controller/ip/connection.py")
@@ -894,6 +961,28 @@ def emit_misc(out, files):
          "def httpByteLiterals : List String := " + lean_list(d["http"]["byteLiterals"], lean_str),
          "end HapVerif.Gen.Misc"]
     files["Misc.lean"] = "\n".join(L) + "\n"
+
+
+@emitter
+def emit_request(out, files):
+    d = out["Request"]
+    t2 = lambda r: f"({lean_str(r[0])}, {lean_str(r[1])})"  # noqa: E731
+    L = ["/-! GENERATED by tools/translate.py from controller/ip/connection.py (request, get, put, post, _connect_once) and http/__init__.py - do not edit. -/",
+         "namespace HapVerif.Gen.Request",
+         "def buffer0 : List String := " + lean_list(d["buffer0"], lean_str),
+         "def appends : List String := " + lean_list(d["appends"], lean_str),
+         f"def join : String := {lean_str(d['join'])}",
+         "def bodyGuard : List String := " + lean_list(d["bodyGuard"], lean_str),
+         "def sends : List String := " + lean_list(d["sends"], lean_str)]
+    for name in ("get", "put", "post"):
+        hp = d["helpers"][name]
+        L.append(f"def {name}Method : String := {lean_str(hp['method'])}")
+        L.append(f"def {name}Headers : List (String × String) := " + lean_list(hp["headers"], t2))
+        L.append(f"def {name}Defaults : List String := " + lean_list(hp["defaults"], lean_str))
+    L.append("def hostHeader : List (String × String) := " + lean_list(d["hostHeader"], t2))
+    L.append("def contentTypes : List (String × String) := " + lean_list(sorted(d["contentTypes"].items()), t2))
+    L.append("end HapVerif.Gen.Request")
+    files["Request.lean"] = "\n".join(L) + "\n"
 
 
 @emitter
